@@ -124,11 +124,16 @@ def PlainVal (S : Spec) (ty : Str) : Val → Prop
 
 /-! ### Sendable: paths -/
 
+/-- the namespace of a path has no leading or trailing `/`: the namespace setters of CIMInstanceName /
+    CIMClassName strip them (`namespace.strip('/')`), so no pywbem path object has one -/
+def NsOk (ns : Option Str) : Prop := ∀ n, ns = some n → nsStrip n = n
+
 mutual
 /-- keybinding: has a name (an unnamed key is written NAME="" and reads back as ''), value is a typed
-    scalar, an untyped Python number, or a reference to a sendable path (any nesting depth) -/
+    scalar, an untyped Python number, or a reference to a sendable INSTANCE path (any nesting depth;
+    `_cim_keybinding` rejects a CIMClassName as keybinding value, so no pywbem path holds one) -/
 def SendableKey (S : Spec) : Key → Prop
-  | .mk n (.ref p) => n.isSome = true ∧ SendablePath S p
+  | .mk n (.ref p) => n.isSome = true ∧ SendablePath S p ∧ keyValueOk (.ref p) = true
   | .mk n (.pyint _) => n.isSome = true
   | .mk n (.pyfloat _) => n.isSome = true
   | .mk n a => n.isSome = true ∧ AtomOk S a
@@ -137,32 +142,37 @@ def SendableKeys (S : Spec) : List Key → Prop
   | k :: ks => SendableKey S k ∧ SendableKeys S ks
 /-- path: key names pairwise distinct ignoring case (keybindings is a NocaseDict) -/
 def SendablePath (S : Spec) : Path → Prop
-  | .inst _ _ _ keys => SendableKeys S keys ∧ NoDupKeyNames keys
-  | .cls _ _ _ => True
+  | .inst _ _ ns keys => SendableKeys S keys ∧ NoDupKeyNames keys ∧ NsOk ns
+  | .cls _ _ ns => NsOk ns
 end
 
 /-! ### Sendable: qualifiers, parameters, methods (no nested objects) -/
 
-/-- qualifier: value typed by TYPE, never a reference or embedded object -/
+/-- qualifier: value typed by TYPE, never a reference or embedded object; TYPE is one of QUALIFIER_CIMTYPES
+    (the type setter of CIMQualifier accepts nothing else — matters when the value is NULL) -/
 def SendableQual (S : Spec) : Qual → Prop
-  | .mk _ ty v _ _ _ _ _ => PlainVal S ty v
+  | .mk _ ty v _ _ _ _ _ => PlainVal S ty v ∧ qualTypeOk ty = true
 
 def SendableQuals (S : Spec) (l : List Qual) : Prop :=
   (∀ q ∈ l, SendableQual S q) ∧ NoDupNames (l.map Qual.name)
 
 /-- parameter declaration: REFERENCECLASS exists only on the reference forms, ARRAYSIZE only on the
-    array forms (the other forms have no such attribute) -/
+    array forms (the other forms have no such attribute); TYPE is one of ALL_CIMTYPES (type setter of
+    CIMParameter) -/
 def SendableParam (S : Spec) : Param → Prop
   | .mk _ ty refCls isArray asz quals _ _ =>
-    SendableQuals S quals ∧ (ty ≠ "reference".toList → refCls = none) ∧ (isArray = false → asz = none)
+    SendableQuals S quals ∧ (ty ≠ "reference".toList → refCls = none) ∧ (isArray = false → asz = none) ∧
+    cimTypeOk ty = true
 
 def SendableParams (S : Spec) (l : List Param) : Prop :=
   (∀ p ∈ l, SendableParam S p) ∧ NoDupNames (l.map Param.name)
 
-/-- method: has a non-empty return type (`parse_method` requires TYPE) -/
+/-- method: has a return type (`parse_method` requires TYPE) that is one of ALL_CIMTYPES and not
+    'reference' (return_type setter of CIMMethod) -/
 def SendableMeth (S : Spec) : Meth → Prop
   | .mk _ retTy params _ _ quals =>
-    (∃ c cs, retTy = some (c :: cs)) ∧ SendableParams S params ∧ SendableQuals S quals
+    (∃ rt, retTy = some rt ∧ cimTypeOk rt = true ∧ rt ≠ "reference".toList) ∧ SendableParams S params ∧
+    SendableQuals S quals
 
 def SendableMeths (S : Spec) (l : List Meth) : Prop :=
   (∀ m ∈ l, SendableMeth S m) ∧ NoDupNames (l.map Meth.name)
@@ -199,16 +209,20 @@ def SendablePropVal (S : Spec) (ty : Str) (isArray emb : Bool) : Val → Prop
       (if emb = true then ty = "string".toList ∧ SendableEmbAtoms S l
        else ∀ a ∈ l, a = Atom.null ∨ PlainAtom S ty a)
 /-- property:
-    * EmbeddedObject is absent or non-empty (`''` reads back as absent)
+    * EmbeddedObject, when set, is 'instance' or 'object' and the type is 'string'
+      (`_check_embedded_object` of the CIMProperty constructor)
     * ARRAYSIZE only on PROPERTY.ARRAY; REFERENCECLASS only on PROPERTY.REFERENCE;
-      PROPERTY.REFERENCE has no EmbeddedObject attribute -/
+      PROPERTY.REFERENCE has no EmbeddedObject attribute
+    * TYPE is one of ALL_CIMTYPES (type setter of CIMProperty — matters when the value is NULL) -/
 def SendableProp (S : Spec) : Prop_ → Prop
   | .mk _ ty val isArray asz refCls _ _ emb quals =>
-    SendableQuals S quals ∧ emb ≠ some [] ∧
+    SendableQuals S quals ∧
+    (∀ e, emb = some e → (e = "instance".toList ∨ e = "object".toList) ∧ ty = "string".toList) ∧
     (isArray = false → asz = none) ∧
     (¬ (isArray = false ∧ ty = "reference".toList) → refCls = none) ∧
     ((isArray = false ∧ ty = "reference".toList) → emb = none) ∧
-    SendablePropVal S ty isArray emb.isSome val
+    SendablePropVal S ty isArray emb.isSome val ∧
+    cimTypeOk ty = true
 def SendablePropList (S : Spec) : List Prop_ → Prop
   | [] => True
   | p :: ps => SendableProp S p ∧ SendablePropList S ps
@@ -249,11 +263,14 @@ def wdQualDecl (C : Codec) (q : QualDecl) : QualDecl :=
            toinstance := dBool false q.toinstance, translatable := dBool false q.translatable }
 
 /-- qualifier declaration: plain typed value; scope names are among the seven DSP0201 scopes unless
-    `any: True` is present (SCOPE has no other attributes; `any: False` is known finding C01-KF2) -/
+    `any: True` is present (SCOPE has no other attributes; `any: False` is known finding C01-KF2);
+    TYPE is one of QUALIFIER_CIMTYPES (type setter); a scalar value goes with is_array False, an array value
+    with is_array True (`_check_array_parms` of the CIMQualifierDeclaration constructor) -/
 def SendableQualDecl (S : Spec) (q : QualDecl) : Prop :=
   PlainVal S q.ty q.val ∧
   (q.scopes.any (fun p => p.1.map Char.toLower == "any".toList && p.2) = true ∨
-   ∀ p ∈ q.scopes, upperAscii p.1 ∈ scopeNames.map String.toList)
+   ∀ p ∈ q.scopes, upperAscii p.1 ∈ scopeNames.map String.toList) ∧
+  qualTypeOk q.ty = true ∧ qdArrayOk (some q.isArray) q.val = true
 
 /-! ### top level -/
 
